@@ -155,7 +155,7 @@ class TransportSetup(Contract):
         rI = ctx['R'].get('__fun__')['I']
         k = z3.Int('menu!k')
         return [z3.ForAll([k], z3.Implies(z3.And(k >= 0, k < ctx['R'].get('T')), rI(k) == rI(0) + k)), ctx['g'].get('T') >= 1], [
-                H.real('wacc') == 0, z3.ForAll([k], ctx['df'](k) == 1), ctx['Tc'] != 1]
+                H.real('wacc') == 0, z3.ForAll([k], ctx['df'](k) == 1), z3.ForAll([k], ctx['g'].get('__fun__')['dt'](k) == 1), ctx['Tc'] != 1]
 
     def native(self, case, P):
         import numpy as np
